@@ -21,6 +21,19 @@
 //	overCmp/outCmp  the operator of `g.fDepth OP g.fStep` under which execution continues
 //	noPosSkips   `if n != nil && n.pos == token.NoPos { return false }` precedes the switch
 //	depthOps     the ++/-- on fDepth in enterCall / exitCall
+//	breakCond    the condition of the break case of (*Debugger).exec: "marked" (n.shouldBreak()) or
+//	             "marked-entering-line" (n.shouldBreak() && (n.debug.breakOnCall || dbg.entersLine(f.debug.prev, n)),
+//	             entersLine being: prev == nil || prev == n, or the lines of prev and n differ)
+//	prevUpdate   (*Debugger).exec begins with `if m := f.debug.node; m != nil && m.isStep() { f.debug.prev = m }`
+//	placement    the line-breakpoint branch of SetBreakpoints: "reachable-steps" (every node with n.isStep() that is
+//	             in cfgNodes(root) and on a requested line is marked) or "first-candidate" (the first node in walk
+//	             order with a position, an action and getExec(n) != nil)
+//	             (kinds are given by the names they print as: `kinds` table of interp/ast.go)
+//	stepKinds    the kinds for which (*node).isStep is true whatever the action (a position being required), when
+//	             the rest of its body is `return n.action != aNop || n.start == n && len(n.child) == 0`
+//	cfgKinds     the kinds whose entry points cfgNodes visits besides root.start: funcType (the body of the
+//	             enclosing function: n.anc.child[3].start when there are 4 children), constDecl/varDecl (n.start and
+//	             the start of every child); the walk follows tnext and fnext (and the clauses of a select)
 //
 // A construct that is no longer recognised yields "unrecognised: …", which cannot equal the
 // hand-written expectation.
@@ -297,7 +310,7 @@ func dbgExecFacts(fd *ast.FuncDecl) (cases []string, over, out string, noPos boo
 					} else {
 						cases = append(cases, "unrecognised: terminate body "+body)
 					}
-				case "n.shouldBreak()":
+				case "n.shouldBreak()", "n.shouldBreak() && (n.debug.breakOnCall || dbg.entersLine(f.debug.prev, n))":
 					if body == "e.reason = DebugBreak;" {
 						cases = append(cases, "break")
 					} else {
@@ -331,6 +344,191 @@ func dbgExecFacts(fd *ast.FuncDecl) (cases []string, over, out string, noPos boo
 		cases = append(cases, "unrecognised: no switch")
 	}
 	return cases, over, out, noPos
+}
+
+// breakCond recognises the condition of the break case and the statement that records the previous step.
+func breakCond(file *ast.File) (cond string, prevUpdate bool) {
+	fd := common.FindFunc(file, "Debugger", "exec")
+	if fd == nil || fd.Body == nil {
+		return "unrecognised: exec not found", false
+	}
+	if len(fd.Body.List) > 0 {
+		prevUpdate = src(fd.Body.List[0]) == "if m := f.debug.node; m != nil && m.isStep() { f.debug.prev = m }"
+	}
+	cond = "unrecognised: no break case"
+	ast.Inspect(fd.Body, func(n ast.Node) bool {
+		cl, ok := n.(*ast.CaseClause)
+		if !ok || len(cl.List) != 1 || !strings.HasPrefix(src(cl.List[0]), "n.shouldBreak()") {
+			return true
+		}
+		switch src(cl.List[0]) {
+		case "n.shouldBreak()":
+			cond = "marked"
+		case "n.shouldBreak() && (n.debug.breakOnCall || dbg.entersLine(f.debug.prev, n))":
+			el := common.FindFunc(file, "Debugger", "entersLine")
+			want := "{ if prev == nil || prev == n { return true } return dbg.interp.fset.Position(prev.pos).Line != dbg.interp.fset.Position(n.pos).Line }"
+			if el != nil && src(el.Type) == "func(prev, n *node) bool" && src(el.Body) == want {
+				cond = "marked-entering-line"
+			} else {
+				cond = "unrecognised: entersLine"
+			}
+		default:
+			cond = "unrecognised: " + src(cl.List[0])
+		}
+		return true
+	})
+	return cond, prevUpdate
+}
+
+// placement recognises the line-breakpoint branch of SetBreakpoints.
+func placement(file *ast.File) string {
+	fd := common.FindFunc(file, "Debugger", "SetBreakpoints")
+	if fd == nil || fd.Body == nil {
+		return "unrecognised: SetBreakpoints not found"
+	}
+	res := "unrecognised: no line branch"
+	ast.Inspect(fd.Body, func(n ast.Node) bool {
+		is, ok := n.(*ast.IfStmt)
+		if !ok || is.Init != nil || !strings.HasPrefix(src(is.Cond), "len(setup.lines) > 0 &&") {
+			return true
+		}
+		body := src(is.Body)
+		switch src(is.Cond) {
+		case "len(setup.lines) > 0 && n.isStep()":
+			want := "{ n.setBreakOnLine(false) if !executes[n] { return true } pos := dbg.interp.fset.Position(n.pos) if i, ok := setup.lines[pos.Line]; ok { if !results[i].Valid { results[i].Valid = true results[i].Position = pos } n.setBreakOnLine(true) } }"
+			if body == want && strings.Contains(src(fd.Body), "if len(setup.lines) > 0 { executes = cfgNodes(root) }") {
+				res = "reachable-steps"
+			} else {
+				res = "unrecognised: body of the isStep branch"
+			}
+		case "len(setup.lines) > 0 && n.pos.IsValid() && n.action != aNop && getExec(n) != nil":
+			want := "{ n.setBreakOnLine(false) pos := dbg.interp.fset.Position(n.pos) if i, ok := setup.lines[pos.Line]; ok && !results[i].Valid { results[i].Valid = true results[i].Position = pos n.setBreakOnLine(true) return true } }"
+			if body == want {
+				res = "first-candidate"
+			} else {
+				res = "unrecognised: body of the getExec branch"
+			}
+		default:
+			res = "unrecognised: " + src(is.Cond)
+		}
+		return false
+	})
+	return res
+}
+
+// kindNames reads `var kinds = [...]string{ident: "name", …}` of interp/ast.go: the name (*node).kind prints
+// as, which is what the graph dump carries.
+func kindNames(file *ast.File) map[string]string {
+	out := map[string]string{}
+	ast.Inspect(file, func(n ast.Node) bool {
+		vs, ok := n.(*ast.ValueSpec)
+		if !ok || len(vs.Names) != 1 || vs.Names[0].Name != "kinds" || len(vs.Values) != 1 {
+			return true
+		}
+		if cl, ok := vs.Values[0].(*ast.CompositeLit); ok {
+			for _, e := range cl.Elts {
+				if kv, ok := e.(*ast.KeyValueExpr); ok {
+					if lit, ok := kv.Value.(*ast.BasicLit); ok {
+						out[src(kv.Key)] = strings.Trim(lit.Value, "\"")
+					}
+				}
+			}
+		}
+		return false
+	})
+	return out
+}
+
+// printed maps kind identifiers to their printed names ("unrecognised: …" entries are kept).
+func printed(names map[string]string, ids []string) []string {
+	var out []string
+	for _, id := range ids {
+		switch {
+		case strings.HasPrefix(id, "unrecognised") || id == "absent":
+			out = append(out, id)
+		case names[id] == "":
+			out = append(out, "unrecognised: kind "+id)
+		default:
+			out = append(out, names[id])
+		}
+	}
+	return out
+}
+
+func identList(es []ast.Expr) []string {
+	var out []string
+	for _, e := range es {
+		out = append(out, src(e))
+	}
+	return out
+}
+
+// stepKinds recognises (*node).isStep.
+func stepKinds(file *ast.File) []string {
+	fd := common.FindFunc(file, "node", "isStep")
+	if fd == nil || fd.Body == nil {
+		return []string{"absent"}
+	}
+	b := fd.Body.List
+	if len(b) != 3 || src(b[0]) != "if !n.pos.IsValid() { return false }" ||
+		src(b[2]) != "return n.action != aNop || n.start == n && len(n.child) == 0" {
+		return []string{"unrecognised: " + src(fd.Body)}
+	}
+	sw, ok := b[1].(*ast.SwitchStmt)
+	if !ok || sw.Init != nil || src(sw.Tag) != "n.kind" || len(sw.Body.List) != 1 {
+		return []string{"unrecognised: switch"}
+	}
+	cl := sw.Body.List[0].(*ast.CaseClause)
+	if len(cl.Body) != 1 || src(cl.Body[0]) != "return true" {
+		return []string{"unrecognised: case body"}
+	}
+	return identList(cl.List)
+}
+
+// cfgKinds recognises cfgNodes.
+func cfgKinds(file *ast.File) []string {
+	fd := common.FindFunc(file, "", "cfgNodes")
+	if fd == nil || fd.Body == nil {
+		return []string{"absent"}
+	}
+	body := src(fd.Body)
+	for _, want := range []string{
+		"for ; n != nil && !seen[n]; n = n.tnext { seen[n] = true visit(n.fnext)",
+		"visit(root.start) return seen }",
+	} {
+		if !strings.Contains(body, want) {
+			return []string{"unrecognised: " + want}
+		}
+	}
+	var out []string
+	bad := ""
+	ast.Inspect(fd.Body, func(n ast.Node) bool {
+		sw, ok := n.(*ast.SwitchStmt)
+		if !ok || sw.Tag == nil || src(sw.Tag) != "n.kind" {
+			return true
+		}
+		for _, c := range sw.Body.List {
+			cl := c.(*ast.CaseClause)
+			kinds := strings.Join(identList(cl.List), ",")
+			var sts []string
+			for _, st := range cl.Body {
+				sts = append(sts, src(st))
+			}
+			bodyS := strings.Join(sts, "; ")
+			switch {
+			case kinds == "funcType" && bodyS == "if len(n.anc.child) == 4 { visit(n.anc.child[3].start) }":
+			case kinds == "constDecl,varDecl" && bodyS == "visit(n.start); for _, c := range n.child { visit(c.start) }":
+			default:
+				bad = "unrecognised: case " + kinds + ": " + bodyS
+			}
+			out = append(out, identList(cl.List)...)
+		}
+		return false
+	})
+	if bad != "" {
+		return []string{bad}
+	}
+	return out
 }
 
 func depthOps(f *ast.File) []string {
@@ -378,6 +576,12 @@ func main() {
 		}
 		order, probes := loopFacts(common.FindFunc(run, "", "runCfg"))
 		cmp, fwd := execCmp(run)
+		bc, pu := breakCond(dbg)
+		_, astF, err := common.ParseFile(repo, "interp/ast.go")
+		if err != nil {
+			return "", err
+		}
+		kn := kindNames(astF)
 		cases, over, out, noPos := dbgExecFacts(common.FindFunc(dbg, "Debugger", "exec"))
 		b := func(v bool) string {
 			if v {
@@ -400,7 +604,12 @@ def facts : DebugLoopFacts :=
     overCmp := %s,
     outCmp := %s,
     noPosSkips := %s,
-    depthOps := %s }
+    depthOps := %s,
+    breakCond := %s,
+    prevUpdate := %s,
+    placement := %s,
+    stepKinds := %s,
+    cfgKinds := %s }
 /-- fingerprints of the functions that Model/Debug.lean transcribes -/
 def sourceHashes : List (String × String) :=
   %s ++
@@ -411,10 +620,11 @@ end YaegiVerif.Generated.C19
 `, common.LeanStrList(order), common.LeanStrList(probes), common.LeanStr(cmp), b(fwd),
 			common.LeanStr(origCmp(common.FindFunc(run, "", "originalExecNode"))), common.LeanStr(backEdge(cfg)),
 			common.LeanStrList(cases), common.LeanStr(over), common.LeanStr(out), b(noPos), common.LeanStrList(depthOps(dbg)),
+			common.LeanStr(bc), b(pu), common.LeanStr(placement(dbg)), common.LeanStrList(printed(kn, stepKinds(dbg))), common.LeanStrList(printed(kn, cfgKinds(dbg))),
 			common.HashTable(fsetR, run, [][2]string{{"", "runCfg"}, {"", "isExecNode"}, {"", "execID"}, {"", "originalExecNode"}}),
 			common.HashTable(fsetD, dbg, [][2]string{{"Debugger", "exec"}, {"Debugger", "enterCall"}, {"Debugger", "exitCall"},
 				{"Debugger", "SetBreakpoints"}, {"debugRoutine", "setMode"}, {"Debugger", "Continue"}, {"Debugger", "Step"},
-				{"Debugger", "Terminate"}, {"Interpreter", "Debug"}}),
+				{"Debugger", "Terminate"}, {"Interpreter", "Debug"}, {"Debugger", "entersLine"}, {"", "cfgNodes"}, {"node", "isStep"}}),
 			common.HashTable(fsetI, itp, [][2]string{{"node", "shouldBreak"}, {"node", "setBreakOnLine"}, {"node", "setBreakOnCall"}, {"node", "Walk"}}),
 			common.HashTable(fsetC, cfg, [][2]string{{"", "setExec"}, {"", "setForwardExec"}, {"", "getExec"}})), nil
 	})
